@@ -6,10 +6,12 @@ W="$1"; P="$2"; shift 2
 git -C "$W" status --porcelain --untracked-files=no | grep -q . && { echo "$W not clean"; exit 2; }
 git -C "$W" apply "$P" || { echo "patch does not apply"; exit 3; }
 RC=0
+export VERIF_SCRATCH_OUT="/dev/shm/verif-seedout-$$"
 for c in "$@"; do
   OUT=$(cd /verif && PYTHONPATH="$W" ./check "$c" --tier "${TIER:-quick}" 2>&1 | grep -v WARNING | grep "^\[C\|^VIOLATION\|clause=" | cut -c1-330 | head -12)
   echo "$OUT"
   echo "$OUT" | grep -q "^VIOLATION" && RC=1
 done
 git -C "$W" checkout -- .
+rm -rf "$VERIF_SCRATCH_OUT"
 echo "DETECTED=$RC"
